@@ -168,6 +168,9 @@ def ensure_worktree(path):
 
 
 def apply_mutant(wt, m):
+    if not os.path.exists(os.path.join(wt, "Cargo.lock")) and os.path.exists(os.path.join(REPO, "Cargo.lock")):
+        import shutil
+        shutil.copy(os.path.join(REPO, "Cargo.lock"), os.path.join(wt, "Cargo.lock"))
     p = os.path.join(wt, m["file"])
     lines = open(p).read().splitlines(keepends=True)
     assert lines[m["line"] - 1].rstrip("\n") == m["old"], (m, lines[m["line"] - 1])
